@@ -184,6 +184,12 @@ impl Analysis {
         self.definitions
             .iter()
             .filter(|(ty, definition)| filter(ty) && definition.contains(&self.tree, &path, pos))
+            // The definitions live in a hash map, so put them in a fixed order: symbols (in the order in which
+            // they were defined) before files. Callers tend to use the first result.
+            .sorted_by_key(|(ty, _)| match ty {
+                DefinitionType::Symbol(nx) => (0, nx.index(), PathBuf::new()),
+                DefinitionType::Filename(path) => (1, 0, path.clone()),
+            })
             .collect()
     }
 
